@@ -158,13 +158,24 @@ def trailing_comma_variants(item):
     return out
 
 
+def interleave_variants(item):
+    """Every spelling obtained by putting an unrelated attribute (`#[doc = ".."]`, `#[allow(dead_code)]`) between two adjacent
+    attributes of one item (struct, variant or field): the derive's own attributes need not be contiguous."""
+    out = []
+    for m in re.finditer(r"\] #\[", item):
+        for foreign in ('#[doc = "d"]', "#[allow(dead_code)]"):
+            out.append(item[:m.start() + 1] + " " + foreign + item[m.start() + 1:])
+    return out
+
+
 def all_spellings():
-    """rewrites() plus, systematically, a trailing comma in every `name(...)` list of every documented spelling."""
+    """rewrites() plus, systematically, a trailing comma in every `name(...)` list of every documented spelling, and an
+    unrelated attribute between every two adjacent attributes."""
     R = rewrites()
     for gi, (d, desc, forms) in enumerate(R):
         extra = []
         for f in forms:
-            for v in trailing_comma_variants(f):
+            for v in trailing_comma_variants(f) + interleave_variants(f):
                 if v not in forms and v not in extra:
                     extra.append(v)
         R[gi] = (d, desc, list(forms) + extra)
